@@ -87,9 +87,8 @@ def gen_corpus(moddir, prop, conf, tier, seed):
     if not c:
         return
     n = c[tier]
-    outdir = os.path.join(moddir, "corpus")
     cmd = ["go", "run", "./cmd/gencorpus", "-seed", str(seed), "-n", str(n), "-profile", c.get("profile", "mixed"),
-           "-out", os.path.join(outdir, "types_gen.go")]
+           "-pkg", conf["pkg"], "-out", os.path.join(moddir, "checks", conf["pkg"], "corpus_gen_test.go")]
     r = subprocess.run(cmd, cwd=moddir, env=goenv(), stdout=subprocess.PIPE, stderr=subprocess.STDOUT)
     if r.returncode != 0:
         raise RuntimeError("corpus generation failed:\n" + r.stdout.decode(errors="replace")[-4000:])
@@ -437,6 +436,9 @@ def cmd_check(args):
     vio_paths = []
     for v in per_sub.values():
         v.setdefault("property", prop)
+        if conf.get("corpus"):
+            v.setdefault("corpus_seed", seed)
+            v.setdefault("corpus_tier", tier)
         vio_paths.append((save_replay(prop, v), v))
 
     evaluations = int(sum(v for k, v in agg["counters"].items() if k.startswith("cases/")))
@@ -536,7 +538,7 @@ def cmd_replay(args):
     variant = next((v for v in conf["variants"] if v["name"] == vname), conf["variants"][0])
     try:
         moddir = prepare_module(repo)
-        gen_corpus(moddir, prop, conf, "quick", int(payload.get("corpus_seed", seed_value())))
+        gen_corpus(moddir, prop, conf, payload.get("corpus_tier", "quick"), int(payload.get("corpus_seed", seed_value())))
         b = build_variant(moddir, prop, conf, variant)
     except RuntimeError as e:
         log(str(e))
